@@ -66,6 +66,11 @@ type c16Outcome struct {
 	Labels      []string
 	FileKey     []byte
 	Unspecified bool // outcome left open by statement and specification
+	// a malformed confirm ended the modelled part: it may be answered by an
+	// abort or by "fail", but the user is not asked and it is not answered "ok"
+	MalformedConfirm bool
+	MalformedAt      int // index of the reply that would answer it
+	ConfirmsAsked    int // well-formed confirms put to the user before it
 }
 
 func okReply() string          { return "-> ok\n\n" }
@@ -92,6 +97,7 @@ func indexClass(s string) string {
 func c16Model(c c16Case) c16Outcome {
 	var o c16Outcome
 	gotLabels, gotKey := false, false
+	confirmsAsked := 0
 	abort := func(contains string) c16Outcome {
 		o.Abort, o.Err, o.ErrContains = true, true, contains
 		return o
@@ -181,7 +187,11 @@ func c16Model(c c16Case) c16Outcome {
 			}
 			if !wellFormed {
 				o.Unspecified = true // abort or fail: left open
+				o.MalformedConfirm, o.MalformedAt, o.ConfirmsAsked = true, len(o.Replies), confirmsAsked
 				return o
+			}
+			if c.UIConfirm > 0 {
+				confirmsAsked++
 			}
 			switch c.UIConfirm {
 			case 2:
@@ -364,7 +374,21 @@ func c16Check(c c16Case, st *stats.Run) error {
 		return err
 	}
 	if want.Unspecified {
-		return nil // only liveness, phase 1 and no-panic are required here
+		if want.MalformedConfirm {
+			asked := 0
+			for _, u := range uiCalls {
+				if strings.HasPrefix(u, "confirm:") {
+					asked++
+				}
+			}
+			if asked > want.ConfirmsAsked {
+				return pbt.Failf("C16/wrong-reply", "a malformed confirm message (%+v) was put to the user: %q", c.Msgs, uiCalls)
+			}
+			if len(replies) > want.MalformedAt && strings.HasPrefix(replies[want.MalformedAt], "-> ok") {
+				return pbt.Failf("C16/wrong-reply", "a malformed confirm message was answered %q; only an abort or fail is possible for it", replies[want.MalformedAt])
+			}
+		}
+		return nil // otherwise only liveness, phase 1 and no-panic are required here
 	}
 	// replies, message by message
 	if len(replies) > len(want.Replies) {
@@ -547,6 +571,104 @@ func c16CheckOthers(c c16Others, st *stats.Run) error {
 	return nil
 }
 
+// one Recipient / Identity value used by several conversations at once: each
+// conversation's first message carries its own file key / stanzas
+type c16Conc struct {
+	N        int  `json:"n"`
+	Identity bool `json:"identity"`
+}
+
+func c16CheckConcurrent(c c16Conc, st *stats.Run) error {
+	dir, err := os.MkdirTemp(".", "c16c-")
+	if err != nil {
+		return pbt.Failf("C16/harness", "%v", err)
+	}
+	dir, _ = filepath.Abs(dir)
+	defer os.RemoveAll(dir)
+	script := &hx.PlugScript{Steps: []hx.PlugStep{{Raw: "-> recipient-stanza 0 sim arg\n" + refage.B64(hx.PRG(3, 32)) + "\n"}, {Raw: "-> done\n\n", NoReply: true}}}
+	if c.Identity {
+		script = &hx.PlugScript{Steps: []hx.PlugStep{{Raw: "-> done\n\n", NoReply: true}}}
+	}
+	bin := filepath.Join(dir, "bin")
+	if err := hx.InstallPlugin(dir, bin, "sim", script); err != nil {
+		return pbt.Failf("C16/harness", "%v", err)
+	}
+	st.Case(true, stats.HashJSON(c), "concurrent-conversations", fmt.Sprintf("concurrent-conversations:identity=%v", c.Identity))
+	pathMu.Lock()
+	oldPath := os.Getenv("PATH")
+	os.Setenv("PATH", bin)
+	os.Setenv(hx.PlugEnv, dir)
+	defer func() {
+		os.Setenv("PATH", oldPath)
+		pathMu.Unlock()
+	}()
+	ui := &plugin.ClientUI{}
+	rec, err1 := plugin.NewRecipient(plugin.EncodeRecipient("sim", []byte("recipient data")), ui)
+	id, err2 := plugin.NewIdentity(plugin.EncodeIdentity("sim", []byte("identity data")), ui)
+	if err1 != nil || err2 != nil {
+		return pbt.Failf("C16/harness", "%v %v", err1, err2)
+	}
+	want := map[string]int{}
+	var wg sync.WaitGroup
+	errs := make([]error, c.N)
+	for i := 0; i < c.N; i++ {
+		fk := hx.PRG(uint64(700+i), 16)
+		body := hx.PRG(uint64(800+i), 32)
+		if c.Identity {
+			want[string(body)]++
+		} else {
+			want[string(fk)]++
+		}
+		wg.Add(1)
+		go func(i int) {
+			defer wg.Done()
+			if c.Identity {
+				_, e := id.Unwrap([]*age.Stanza{{Type: "sim", Args: []string{fmt.Sprint("conv", i)}, Body: body}})
+				if !errors.Is(e, age.ErrIncorrectIdentity) {
+					errs[i] = e
+				}
+				return
+			}
+			_, errs[i] = rec.Wrap(fk)
+		}(i)
+	}
+	done := make(chan struct{})
+	go func() { wg.Wait(); close(done) }()
+	select {
+	case <-done:
+	case <-time.After(60 * time.Second):
+		return pbt.Failf("C16/hang", "%d concurrent conversations through one value did not finish within 60 s", c.N)
+	}
+	for i, e := range errs {
+		if e != nil {
+			return pbt.Failf("C16/wrong-result", "conversation %d of %d run at once through one value failed: %v", i, c.N, e)
+		}
+	}
+	got := map[string]int{}
+	for _, e := range hx.ReadTranscript(dir) {
+		if e.Kind != "phase1" {
+			continue
+		}
+		rest := []byte(e.Data)
+		for len(rest) > 0 {
+			sz, r2, perr := refage.ParseStanza(rest)
+			if perr != nil {
+				return pbt.Failf("C16/phase1", "phase 1 of a concurrent conversation is not well formed: %v: %q", perr, e.Data)
+			}
+			rest = r2
+			if (!c.Identity && sz.Type == "wrap-file-key") || (c.Identity && sz.Type == "recipient-stanza") {
+				got[string(sz.Body)]++
+			}
+		}
+	}
+	for k, n := range want {
+		if got[k] != n {
+			return pbt.Failf("C16/phase1", "%d conversations were run at once through one %s value: the plugin received the payload %x %d time(s) instead of %d (another conversation's data was sent in its place)", c.N, map[bool]string{true: "Identity", false: "Recipient"}[c.Identity], k, got[k], n)
+		}
+	}
+	return nil
+}
+
 // the reduced alphabet for exhaustive enumeration
 func c16Alphabet() []pMsg {
 	b16 := hx.PRG(1, 16)
@@ -564,6 +686,7 @@ func c16Alphabet() []pMsg {
 		{Cmd: "request-secret", Body: []byte("pin")},
 		{Cmd: "confirm", Args: []string{refage.B64([]byte("yes")), refage.B64([]byte("no"))}, Body: []byte("sure?")},
 		{Cmd: "confirm", Body: []byte("sure?")},
+		{Cmd: "confirm", Args: []string{"***", refage.B64([]byte("no"))}, Body: []byte("sure?")},
 		{Cmd: "future-cmd", Args: []string{"x"}, Body: []byte("?")},
 		{Cmd: "request-pin", Body: []byte("pin?")},
 		{Cmd: "done"},
@@ -617,7 +740,7 @@ func c16GenMsg(t *rapid.T) pMsg {
 		return pMsg{Cmd: "request-secret", Body: []byte("pin")}
 	case "confirm":
 		y, n := refage.B64([]byte("yes")), refage.B64([]byte("no"))
-		args := rapid.SampledFrom([][]string{{y, n}, {y}, nil, {y, n, y}, {"***"}, {y, "="}}).Draw(t, "cargs")
+		args := rapid.SampledFrom([][]string{{y, n}, {y}, nil, {y, n, y}, {"***"}, {y, "="}, {"***", n}, {"=", n}, {"***", "***"}}).Draw(t, "cargs")
 		return pMsg{Cmd: "confirm", Args: args, Body: []byte("really?")}
 	case "unknown":
 		return pMsg{Cmd: rapid.SampledFrom([]string{"grease-abc", "future-cmd", "ok", "fail", "unsupported", "add-identity", "wrap-file-key", "request-pin", "request-secret-v2", "request-", "msg2", "msg-", "confirm2", "error-", "errors", "labels2", "file-key2", "file-keys", "recipient-stanza2", "done2", "done-", "Msg", "DONE"}).Draw(t, "ucmd"), Args: []string{"a"}, Body: b}
@@ -684,6 +807,15 @@ func TestC16(t *testing.T) {
 		}
 		s.St.Exhaust("plugin exits mid-conversation leaving a helper process that holds its stderr", 4)
 	}, check)
+	pbt.Each(s, "concurrent-conversations", func(yield func(c16Conc)) {
+		for rep := 0; rep < 3; rep++ {
+			if s.Mine(rep) {
+				yield(c16Conc{N: 12, Identity: false})
+				yield(c16Conc{N: 12, Identity: true})
+			}
+		}
+		s.St.Exhaust("12 conversations at once through one plugin Recipient value and one plugin Identity value (3 repetitions each)", 6)
+	}, func(c c16Conc) error { return c16CheckConcurrent(c, s.St) })
 	pbt.Each(s, "cli-other-identities", func(yield func(c16Others)) {
 		n := 0
 		for _, enc := range []bool{false, true} {
